@@ -177,6 +177,64 @@ fn gen_in_hole(r: &mut Rng) -> (IG, IG, Lat) {
     }
 }
 
+/// Distances at scales where the SQUARE of the distance leaves the range of the scalar type (f64: 2^±(520..600),
+/// f32: 2^±(64..100)). A Pythagorean offset (dx,dy)·2^e has the distance k·2^e exactly; a distance is not a squared
+/// distance, so nothing here needs to leave the range. Point–Point, Point–Line (foot inside), Line–Line (parallel).
+pub fn check_extreme_scale(sh: &mut Shard, t: (i64, i64, i64), e64: i32, e32: i32, verbose: bool) {
+    use geo::{Line, Point};
+    let (dx, dy, k) = t;
+    let det = |site: &str, exp: String, got: String| json!({"property": "C07", "check": "distance.extreme_scale", "kind": "extreme_scale", "triple": [dx, dy, k], "e64": e64, "e32": e32, "site": site, "expected": exp, "got": got});
+    {
+        let s = crate::q::pow2(e64);
+        let (p, q) = (Point::new(s, -2.0 * s), Point::new((1 + dx) as f64 * s, (dy - 2) as f64 * s));
+        let exp = k as f64 * s;
+        // a segment through q perpendicular to p->q (direction (-dy, dx)): its distance from p is k·s as well
+        let l = Line::new(geo::Coord { x: q.x() + dy as f64 * s, y: q.y() - dx as f64 * s }, geo::Coord { x: q.x() - dy as f64 * s, y: q.y() + dx as f64 * s });
+        let l2 = Line::new(geo::Coord { x: p.x() + dy as f64 * s, y: p.y() - dx as f64 * s }, geo::Coord { x: p.x() - dy as f64 * s, y: p.y() + dx as f64 * s });
+        let cases: Vec<(&str, Result<f64, String>)> = vec![
+            ("Point-Point f64", call(|| Euclidean.distance(&p, &q))),
+            ("Point-Point f64 (legacy euclidean_distance)", call(|| p.euclidean_distance(&q))),
+            ("Point-Line f64", call(|| Euclidean.distance(&p, &l))),
+            ("Line-Line f64 (parallel)", call(|| Euclidean.distance(&l2, &l))),
+        ];
+        for (site, got) in cases {
+            sh.eval(1);
+            match got {
+                Ok(d) => {
+                    if verbose {
+                        println!("{site}: {d:e} (expected {exp:e})");
+                    }
+                    if !((d - exp).abs() <= 8.0 * f64::EPSILON * exp) {
+                        // known finding: the point-to-segment kernel divides by the SQUARED segment length, which is 0 or inf
+                        // here: NaN / inf / 0 from it (and from what is built on it) is that finding; any finite non-zero
+                        // wrong value, and anything wrong in Point-Point, is not [see below]
+                        // (the whole stratum has squared segment lengths outside the normal range of f64: also a finite value
+                        // computed from a subnormal squared length is that finding; Point-Point stays strict)
+                        let kc = if !site.starts_with("Point-Point") { "distance_segment_kernel_squares_leave_range" } else { "-" };
+                        sh.violation(&format!("distance.extreme_scale|{site}|{kc}"), det(site, format!("{exp:e}"), format!("{d:e}")));
+                    }
+                }
+                Err(m) => sh.violation(&format!("distance.extreme_scale.panic|{site}|-"), det(site, "no panic".into(), m)),
+            }
+        }
+    }
+    {
+        let s = (2.0f32).powi(e32);
+        let (p, q) = (Point::new(s, -2.0 * s), Point::new((1 + dx) as f32 * s, (dy - 2) as f32 * s));
+        let exp = k as f32 * s;
+        sh.eval(1);
+        match call(|| Euclidean.distance(&p, &q)) {
+            Ok(d) => {
+                if !((d - exp).abs() <= 8.0 * f32::EPSILON * exp) {
+                    sh.violation("distance.extreme_scale|Point-Point f32|-", det("Point-Point f32", format!("{exp:e}"), format!("{d:e}")));
+                }
+            }
+            Err(m) => sh.violation("distance.extreme_scale.panic|Point-Point f32|-", det("Point-Point f32", "no panic".into(), m)),
+        }
+    }
+    sh.class("distance:scale_where_squares_leave_the_range");
+}
+
 pub fn run(ctx: &Ctx, sh: &mut Shard) {
     for k in ctx.case_indices() {
         if sh.cases >= ctx.budget {
@@ -184,6 +242,15 @@ pub fn run(ctx: &Ctx, sh: &mut Shard) {
         }
         ctx.mark_case(k);
         let mut r = Rng::derive(ctx.seed, ctx.shard, k);
+        if k % 64 == 11 {
+            sh.cases += 1;
+            let t = *r.pick(&[(3i64, 4i64, 5i64), (5, 12, 13), (8, 15, 17), (7, 24, 25), (20, 21, 29)]);
+            let t = if r.chance(1, 2) { t } else { (-t.1, t.0, t.2) };
+            let e64 = if r.chance(1, 2) { r.range(-600, -520) } else { r.range(520, 600) } as i32;
+            let e32 = if r.chance(1, 2) { r.range(-100, -64) } else { r.range(64, 100) } as i32;
+            check_extreme_scale(sh, t, e64, e32, false);
+            continue;
+        }
         let (a, b, lat) = if k % 6 == 5 { gen_in_hole(&mut r) } else { super::c01::gen_case(&mut r) };
         if a.n_segments() + b.n_segments() > 90 {
             continue;
@@ -193,6 +260,11 @@ pub fn run(ctx: &Ctx, sh: &mut Shard) {
 }
 
 pub fn replay(v: &Value, sh: &mut Shard) {
+    if v["kind"].as_str() == Some("extreme_scale") {
+        let t = &v["triple"];
+        check_extreme_scale(sh, (t[0].as_i64().unwrap(), t[1].as_i64().unwrap(), t[2].as_i64().unwrap()), v["e64"].as_i64().unwrap() as i32, v["e32"].as_i64().unwrap() as i32, true);
+        return;
+    }
     let a = IG::from_json(&v["a"]).expect("a");
     let b = IG::from_json(&v["b"]).expect("b");
     let lat = Lat::from_json(&v["lat"]);
